@@ -25,7 +25,7 @@ pub struct Rec {
     pub samples: Vec<String>,
     pub panics: u64,
     sample_every: u64,
-    dir: String,
+    pub dir: String,
 }
 
 fn fnv(s: &str) -> u64 {
